@@ -619,3 +619,16 @@ package agent
 //@   modifies this.depth_
 //@   ensures[C08] this.depth_ == old(this.depth_)
 //@   xensures[C08] this.depth_ == old(this.depth_)
+
+//@ assume func reflect.TypeOf
+//@   nopanic
+//@   ensures result != nil
+//@ assume func (reflect.Value).Call
+//@   ensures len(result) >= 1
+//@ iface InspectorClassLike.Make
+//@   nopanic
+//@   ensures result != nil
+//@ iface InspectorLike.ImplementsAspect
+//@   nopanic
+//@ iface InspectorLike.IsDefined
+//@   nopanic
